@@ -245,7 +245,7 @@ def _run_variant(args) -> dict:
             from .neutral import alpha_rename_tree, unparse_tree
 
             (alpha_rename_tree if idx == "alpha" else unparse_tree)(d)
-        elif kind == "patch":
+        elif kind in ("patch", "neutral-patch"):
             p = subprocess.run(["patch", "-p1", "--no-backup-if-mismatch", "-s", "-i", idx], cwd=d, capture_output=True, text=True)
             if p.returncode != 0:
                 return {"name": name, "kind": kind, "status": "skipped", "why": "patch does not apply to the current tree"}
@@ -285,6 +285,14 @@ def selftest_for(pid: str, repo: str, jobs: int = 16) -> dict:
     for sname, info in sorted(catches.items()):
         if pid in info.get("caught_by", []):
             work.append((f"seeded:{sname}", [pid], "patch", os.path.join(seeded_dir, sname, "patch.diff")))
+    # behaviour-preserving refactorings written by maintainers-for-a-day (fresh sub-agents; extract method, guard clauses, renames,
+    # loops <-> comprehensions, hoisted expressions, named constants ...): every check must stay silent on each of them
+    neutral_dir = os.path.join(VERIF, "neutral")
+    if os.path.isdir(neutral_dir):
+        for nname in sorted(os.listdir(neutral_dir)):
+            pth = os.path.join(neutral_dir, nname, "patch.diff")
+            if os.path.exists(pth):
+                work.append((f"neutral-patch:{nname}", [pid], "neutral-patch", pth))
     work.append(("neutral:alpha-rename-all-locals", [pid], "neutral", "alpha"))
     work.append(("neutral:re-render-with-ast.unparse", [pid], "neutral", "unparse"))
     keys, err = failing_keys(pid, repo)
@@ -297,15 +305,15 @@ def selftest_for(pid: str, repo: str, jobs: int = 16) -> dict:
         for r in ex.map(_run_variant, jobs_args):
             results.append(r)
     missed = [r["name"] for r in results if r["status"] == "done" and r["kind"] in ("mutant", "patch") and not r["fired"].get(pid)]
-    noisy = [r["name"] for r in results if r["status"] == "done" and r["kind"] in ("twin", "neutral") and r["fired"].get(pid)]
+    noisy = [r["name"] for r in results if r["status"] == "done" and r["kind"] in ("twin", "neutral", "neutral-patch") and r["fired"].get(pid)]
     return {
         "variants": len(results),
         "mutants_killed": len([r for r in results if r["status"] == "done" and r["kind"] == "mutant" and r["fired"].get(pid)]),
         "mutants_total": len([r for r in results if r["status"] == "done" and r["kind"] == "mutant"]),
         "seeded_patches_caught": len([r for r in results if r["status"] == "done" and r["kind"] == "patch" and r["fired"].get(pid)]),
         "seeded_patches_total": len([r for r in results if r["status"] == "done" and r["kind"] == "patch"]),
-        "twins_silent": len([r for r in results if r["status"] == "done" and r["kind"] in ("twin", "neutral") and not r["fired"].get(pid)]),
-        "twins_total": len([r for r in results if r["status"] == "done" and r["kind"] in ("twin", "neutral")]),
+        "twins_silent": len([r for r in results if r["status"] == "done" and r["kind"] in ("twin", "neutral", "neutral-patch") and not r["fired"].get(pid)]),
+        "twins_total": len([r for r in results if r["status"] == "done" and r["kind"] in ("twin", "neutral", "neutral-patch")]),
         "skipped": [r["name"] + ": " + r["why"] for r in results if r["status"] == "skipped"],
         "missed": missed,
         "noisy": noisy,
